@@ -9,6 +9,15 @@ CLAIMED = {
  "C01": ("deterministic simulation: seeded cluster of real replicas with different roles/configs fed identical PRNG-built block histories under CheckTx noise and crash/restart; transcript equality oracle",
          "Seeded search over block histories, node configurations and fault schedules on 3-6 real replicas per run; every commit hash, validator update and DeliverTx result is compared with the reference replica. A clean batch is evidence, not proof.",
          "Trusts the consensus driver to deliver identical blocks (it builds each block once), Tendermint's BlockExecutor/Handshaker as shipped, and tmpfs goleveldb. Go's own map-order randomisation is an uncontrolled source: violations caused by it are replayed repeatedly and reported with their reproduction rate."),
+ "C06": ("deterministic simulation: raw-mode shadow twin receives the captured BeginBlock and only the successful transactions of each block; per-block hash/result/validator-update equality",
+         "Seeded search over block histories biased to failures at every depth (handler failure after partial writes, fee-step failure after handler success, VM pre-check failures) at random positions among successful transactions touching the same keys; the twin without the failed transactions must agree on every app hash, surviving result and validator update.",
+         "MaxGas=-1 profile (running gas total exempt); identical-bytes resubmission and BLOCKHASH excluded (the twin's tx index legitimately differs). Twin is driven over raw ABCI, main replica through the real BlockExecutor."),
+ "C07": ("deterministic simulation: scheduler injects CheckTx calls at every before/after site of every consensus call on noisy replicas; transcript equality against a quiet replica",
+         "Seeded search over interleavings of CheckTx (valid, invalid, state-writing kinds, the block's own transactions before and after delivery) with the consensus call sequence; noisy replicas must return exactly the quiet replica's hashes, validator updates and DeliverTx results.",
+         "CheckTx is injected only when a real node's mempool can be up (after InitChain returned, not during handshake replay). All calls are serialised as the local ABCI client serialises them; true data races with RPC readers are out of scope."),
+ "C08": ("deterministic simulation with crash injection: victims are killed at PRNG-chosen ABCI boundaries (also during handshake replay), restarted from a byte copy of the open data directory through the real Handshaker; Info/handshake/transcript/liveness oracles",
+         "Seeded search over crash points x block histories, including repeated crashes and crashes during recovery; after restart Info must equal the victim's last completed commit, the real Handshaker must complete, every re-executed block must reproduce the reference's results, and victims must reach the tip once faults stop.",
+         "Crash = process death (nothing the OS accepted is lost); power-loss/torn writes are not modelled. Tendermint's state/block/tx-index DBs are MemDBs that survive the crash unchanged; tx index is fed when the replica's Tendermint state reaches a height."),
 }
 NOT_YET = {}  # filled below
 
